@@ -3,3 +3,5 @@ import ElfiVerif.Model.SubSeed
 import ElfiVerif.Proofs.SubSeed
 import ElfiVerif.Props.C15
 import ElfiVerif.Driver
+import ElfiVerif.Model.Stats
+import ElfiVerif.Props.C13
